@@ -2,7 +2,7 @@
 C03 — the collider classes: point set and well-formedness of every collider, support /
 first_vertex / center of the `Collider` sum type.
 -/
-import D3.Proofs.SupportMesh
+import D3.Proofs.SupportMeshBuild
 
 namespace D3
 namespace Support
